@@ -445,7 +445,13 @@ impl Drop for SimCore {
                 }
                 eprintln!("=== world log hash {h:016x}\n{out}");
             }
-            GLOBAL_LOG_DIGEST.fetch_xor(h, SeqCst);
+            // worlds run on a real multi-thread runtime (C17's flavour F) are outside the
+            // simulator's control by design - Conserve lists the block subdirectories
+            // concurrently, so the ORDER of those reads is the operating system's - and stay
+            // out of the determinism digest
+            if self.runtime_workers.load(SeqCst) == 0 {
+                GLOBAL_LOG_DIGEST.fetch_xor(h, SeqCst);
+            }
             GLOBAL_WORLDS.fetch_add(1, SeqCst);
         }
     }
